@@ -471,13 +471,15 @@ Proof.
   cbn [resolver_obs judge_C19_from fst snd].
   destruct o as [|A].
   - (* failure *)
+    rewrite Nat.add_1_r.
     destruct (le_lt_dec 3 (re_failed e)) as [Hf|Hf];
       [destruct (re_addrs e) as [|a l] eqn:Ea|].
     + (* nothing resolved: tolerated whatever the counter *)
       rewrite C19_tolerates by (right; exact Ea). cbn [fst snd re_addrs is_nil negb].
-      rewrite andb_false_r, lbeq_refl, Ea. cbn [lbeq andb Nat.eqb].
+      rewrite andb_false_r, lbeq_refl, Ea.
+      cbn [lbeq andb Nat.eqb removed_count filter List.length].
       specialize (IH ({| re_addrs := re_addrs e; re_failed := S (re_failed e) |}, s)).
-      cbn [fst snd re_addrs re_failed] in IH. rewrite Ea, <- Nat.add_1_r in IH.
+      cbn [fst snd re_addrs re_failed] in IH. rewrite Ea in IH.
       apply IH; [|exact Hd2].
       destruct HI as (H1 & H2 & H3 & H4). unfold Inv. cbn [fst snd re_addrs] in *.
       rewrite Ea in *. repeat split; try assumption; apply H4; assumption.
@@ -485,15 +487,15 @@ Proof.
       destruct (C19_fourth_empties port e s HI Hf) as (s' & Hs & B & M & HI').
       { rewrite Ea. discriminate. }
       rewrite Hs. cbn [fst snd re_addrs is_nil negb].
-      assert (E1 : Nat.ltb 3 (re_failed e + 1) = true) by (apply Nat.ltb_lt; lia).
+      assert (E1 : Nat.ltb 3 (S (re_failed e)) = true) by (apply Nat.ltb_lt; lia).
       rewrite E1, B, removed_count_repeat, Ea, Nat.eqb_refl. cbn [andb is_nil].
       specialize (IH _ HI' Hd2). cbn [fst snd re_addrs re_failed] in IH. rewrite B in IH. exact IH.
     + (* tolerated *)
       rewrite C19_tolerates by (left; exact Hf). cbn [fst snd re_addrs].
-      assert (E1 : Nat.ltb 3 (re_failed e + 1) = false) by (apply Nat.ltb_ge; lia).
+      assert (E1 : Nat.ltb 3 (S (re_failed e)) = false) by (apply Nat.ltb_ge; lia).
       rewrite E1, !lbeq_refl. cbn [andb Nat.eqb removed_count filter List.length].
       specialize (IH ({| re_addrs := re_addrs e; re_failed := S (re_failed e) |}, s)).
-      cbn [fst snd re_addrs re_failed] in IH. rewrite <- Nat.add_1_r in IH.
+      cbn [fst snd re_addrs re_failed] in IH.
       apply IH; [exact HI|exact Hd2].
   - (* success *)
     apply nodup_b_iff in Hd1.
